@@ -589,6 +589,11 @@ func TestVerifRequests(t *testing.T) {
 			vEmit(vmap{"ev": "Case", "scen": id, "timing": timing, "kind": c.Kind, "arg": c.Arg, "expect": expect})
 			ret, msg, ms := rqCall(func() error { return rqIssue(rig.ctl, c, dir, 40) }, 6500*time.Millisecond)
 			vEmit(vmap{"ev": "Ret", "returned": ret, "err": msg, "ms": ms})
+			if ret && expect == "err" && timing == "running" && c.Kind != "rawblock" {
+				// a refused request leaves nothing behind: the same request once more is refused again
+				ret2, msg2, ms2 := rqCall(func() error { return rqIssue(rig.ctl, c, dir, 40) }, 6500*time.Millisecond)
+				vEmit(vmap{"ev": "Ret", "returned": ret2, "err": msg2, "ms": ms2, "again": true})
+			}
 			pr := rig.probe(timing == "running")
 			pr["ev"] = "Probe"
 			vEmit(pr)
